@@ -43,7 +43,7 @@ func c15Gen(t *rapid.T) c15Plan {
 	for i := 0; i < n; i++ {
 		rq := c15Req{Fault: rapid.SampledFrom(c15Faults).Draw(t, "fault")}
 		if rq.Fault == "late-head" {
-			rq.DelayMs = p.RespTimeoutMs + rapid.SampledFrom([]int{-1, 0, 1, -50, 50}).Draw(t, "late-by")
+			rq.DelayMs = p.RespTimeoutMs + rapid.SampledFrom([]int{-2, -1, 0, 1, -50, 50}).Draw(t, "late-by")
 		}
 		p.Reqs = append(p.Reqs, rq)
 	}
@@ -153,14 +153,15 @@ func c15Run(t *testing.T, p c15Plan) (res vfResult) {
 			case "no-listener", "accept-close":
 				wantStatus, wantAt = 502, start
 			case "read-close", "reset", "garbage", "partial-status", "partial-headers-close", "partial-headers-reset":
-				wantStatus, wantAt = 502, got
+				wantStatus, wantAt = 502, got+vfMs(vfRawThinkMs)
 			case "partial-headers-stall", "silence":
 				wantStatus, wantAt = 504, got+timeout
 			case "late-head":
+				eff := vfMs(rq.DelayMs + vfRawThinkMs) // the head leaves the target this long after it had the request
 				switch {
-				case vfMs(rq.DelayMs) < timeout:
+				case eff < timeout:
 					wantStatus = 200
-				case vfMs(rq.DelayMs) > timeout:
+				case eff > timeout:
 					wantStatus, wantAt = 504, got+timeout
 				default:
 					wantStatus = -1 // tie
@@ -218,7 +219,7 @@ func c15Run(t *testing.T, p c15Plan) (res vfResult) {
 						return
 					}
 				}
-				if vfMs(rq.DelayMs) != 0 && abs(vfMs(rq.DelayMs)-timeout) <= time.Millisecond {
+				if vfMs(rq.DelayMs) != 0 && abs(vfMs(rq.DelayMs+vfRawThinkMs)-timeout) <= time.Millisecond {
 					interesting = true
 				}
 			} else {
